@@ -259,6 +259,39 @@ func (s *Store) CARootActive(ws memdb.WatchSet) (uint64, *structs.CARoot, error)
 	return idx, roots.Active(), err
 }
 
+// CARootSetAndConfigCAS replaces the CA roots and the CA configuration in a
+// single transaction, each guarded by its own check-and-set index. Either both
+// are applied or neither is: a configuration index that no longer matches must
+// not leave the new roots behind. The results are those of CARootSetCAS
+// followed by CACheckAndSetConfig.
+func (s *Store) CARootSetAndConfigCAS(idx, rootsIdx uint64, rs []*structs.CARoot, configIdx uint64, config *structs.CAConfiguration) (bool, error) {
+	tx := s.db.WriteTxn(idx)
+	defer tx.Abort()
+
+	matched := maxIndexTxn(tx, tableConnectCARoots) == rootsIdx
+	if err := caRootSetCASTxn(tx, idx, rootsIdx, rs); err != nil {
+		return false, err
+	}
+	if !matched {
+		return false, nil
+	}
+
+	existing, err := tx.First(tableConnectCAConfig, "id")
+	if err != nil {
+		return false, fmt.Errorf("failed CA config lookup: %s", err)
+	}
+	e, ok := existing.(*structs.CAConfiguration)
+	if (ok && e.ModifyIndex != configIdx) || (!ok && configIdx != 0) {
+		return false, errors.Errorf("ModifyIndex did not match existing")
+	}
+	if err := s.caSetConfigTxn(idx, tx, config); err != nil {
+		return false, err
+	}
+
+	err = tx.Commit()
+	return err == nil, err
+}
+
 // CARootSetCAS sets the current CA root state using a check-and-set operation.
 // On success, this will replace the previous set of CARoots completely with
 // the given set of roots.
